@@ -1,7 +1,9 @@
 """Reference memory map and reference decoders for DALI memory banks.
 
 DATA ONLY.  This module does not import ``dali`` and nothing in it was produced
-by introspecting the library: every row below was typed in by hand from
+by introspecting the library (the last section, a generated family of a program's own declarations, ends with two
+functions that SPELL such a declaration with the library module the caller hands in - they interpret nothing): every row
+below was typed in by hand from
 
   * IEC 62386-102:2014 9.10.6 Table 9 (memory bank 0), 9.10.7 Table 10 (bank 1),
     4.2 (version number encoding), and IEC 62386-102:2009 Table "memory bank 0"
@@ -580,3 +582,390 @@ def edge_raws(row):
             seen.add(tuple(p))
             out.append(p)
     return out
+
+
+# ------------------------------------- generated family of a program's own declarations (C09, C10, C11) --
+# "For every declared memory value ...": the declaration mechanism is public (dali/memory/*.py are written with it), so a
+# program's own banks and values are declared values like the shipped ones.  family(seed) generates a few hundred
+# declarations that span what the mechanism documents:
+#   base class   NumericValue, FixedScaleNumericValue, TemperatureValue, StringValue, BinaryValue, VersionNumberValue,
+#                energy.ScaledNumericValue (kinds uint / fixed / temp / string / bool / version1|2 / scaled)
+#   derivation   from the abstract base, from a shipped concrete value (CRI, InputPowerNominal, ...), from another value
+#                of the family - changing width, signedness, limits, MASK / TMASK support, scale
+#   signed, mask_supported, tmask_supported, min_value / max_value present or absent (None overrides an inherited limit)
+#   1..4 (strings, plain numbers: up to 8) locations: ascending, descending, with gaps, scattered; addresses 0x03..0xFE
+#   per-location access type: each MemoryType, none given (MemoryLocation's default), mixed (writeable + read-only, ...)
+#   MemoryLocation(default=, reset=) present / absent; locations given as MemoryRange, tuple, list, single MemoryLocation
+#   banks with / without lock byte and latch byte
+# What such a value MEANS is fixed here, without the library: a class attribute that the declaration does not set is the
+# parent's (Python inheritance of the documented attributes), the MASK / TMASK patterns are those of the value's OWN
+# width and signedness, the bytes are taken from the locations in the DECLARED order.  Only combinations whose meaning the
+# statement / the library's documentation settles are generated: no signed temperatures / versions / scaled numbers,
+# booleans of one byte, versions of one or two bytes, limits of temperatures only where the shipped values have them
+# (largest number below the flag patterns), no limits for strings / booleans / versions, no location 0x00..0x02.
+ABSTRACT_BASES = {"NumericValue": "uint", "FixedScaleNumericValue": "fixed", "TemperatureValue": "temp",
+                  "StringValue": "string", "BinaryValue": "bool", "VersionNumberValue": "version",
+                  "ScaledNumericValue": "scaled"}
+# shipped values a program's value is derived from (table keys; kinds with a decoder of their own - cct, lightdist - are
+# not refined)
+STOCK_PARENTS = ("BANK_1.CRI", "BANK_1.InputPowerNominal", "BANK_1.WeekOfManufacture", "BANK_1.MainsVoltageMinimum",
+                 "BANK_1.LuminaireColor", "BANK_0.GTIN", "BANK_0.FirmwareVersion", "BANK_0.Part102Version",
+                 "BANK_205.ControlGearExternalSupplyVoltage", "BANK_205.ControlGearPowerFactor",
+                 "BANK_205.ControlGearTemperature", "BANK_205.ControlGearOverallFailureCondition",
+                 "BANK_205.ControlGearThermalShutdown", "BANK_206.LightSourceStartCounterResettable",
+                 "BANK_206.LightSourceTemperature", "BANK_207.RatedMedianUsefulLifeOfLuminaire", "BANK_202.ActivePower",
+                 "BANK_203.ApparentEnergy")
+FAMILY_BANK0 = 160          # bank numbers 160.. are the family's (the library keeps no registry of bank numbers)
+_FAMILIES = {}
+
+
+def _abstract_row(base):
+    return dict(kind=ABSTRACT_BASES[base], signed=False, mask=False, tmask=False, min=None, max=None,
+                exp10=0 if base == "FixedScaleNumericValue" else None)
+
+
+def family_row(decl, parent_row):
+    """Reference meaning of one declaration: the parent's row with what the declaration sets itself."""
+    a = decl["attrs"]
+    w = len(decl["locs"])
+    kind = parent_row["kind"]
+    if kind.startswith("version"):
+        kind = "version1" if w == 1 else "version2"
+    return dict(key="%s.%s" % (decl["bankobj"], decl["name"]), cls=decl["name"], module="(program)", bankobj=decl["bankobj"],
+                bank=decl["bank"], first=min(decl["locs"]), last=max(decl["locs"]), width=w, locs=list(decl["locs"]),
+                memtype=tuple(decl["types"]), kind=kind, signed=a.get("signed", parent_row["signed"]),
+                mask=a.get("mask_supported", parent_row["mask"]), tmask=a.get("tmask_supported", parent_row["tmask"]),
+                min=a["min_value"] if "min_value" in a else parent_row["min"],
+                max=a["max_value"] if "max_value" in a else parent_row["max"],
+                exp10=a.get("exp10", parent_row["exp10"]), trust="independent", pinned_fields=())
+
+
+_RO_TYPES = ("ROM", "RAM_RO", "NVM_RO")
+
+
+def family(seed, nbanks=16, per_bank=12):
+    """-> {"seed", "banks": {bankobj: {bank, has_lock, has_latch, last}}, "decls": [decl, ...], "rows": {key: row}}
+    decl: name, bankobj, bank, parent ["abstract", base] | ["stock", table key] | ["user", key of an earlier decl],
+    locs / types (None: no type_ given) / defaults / resets per location, form (range | tuple | list | single),
+    attrs (what the class body sets: signed, mask_supported, tmask_supported, min_value, max_value, exp10),
+    order ("parent-first" | "child-first": which of the two is used first where the caller can arrange it)."""
+    seed = int(seed)
+    if (seed, nbanks, per_bank) in _FAMILIES:
+        return _FAMILIES[(seed, nbanks, per_bank)]
+    attempt = 0
+    while True:
+        fam = _family(seed, nbanks, per_bank, attempt)
+        if not family_missing(fam) or attempt > 50:
+            break
+        attempt += 1            # (deterministic: the first attempt that shows every feature of FAMILY_FEATURES)
+    _family_selfcheck(fam)
+    _FAMILIES[(seed, nbanks, per_bank)] = fam
+    return fam
+
+
+_ABSTRACT_WEIGHTED = ["NumericValue"] * 5 + ["FixedScaleNumericValue"] * 4 + ["StringValue"] * 2 + ["ScaledNumericValue"] * 2 + \
+    ["TemperatureValue", "BinaryValue", "VersionNumberValue"]
+
+
+def _family(seed, nbanks, per_bank, attempt):
+    import random
+    rnd = random.Random("python-dali declared-value family %d/%d" % (seed, attempt))
+    flags = [(False, False), (True, False), (False, True), (True, True)]
+    banks, decls, rows = {}, [], {}
+    todo_abstract = sorted(ABSTRACT_BASES) * 2
+    todo_stock = list(STOCK_PARENTS)
+    rnd.shuffle(todo_abstract)
+    rnd.shuffle(todo_stock)
+    todo_types = list(MEMORY_TYPES) + [None, "mixed-ro", "mixed-none", "mixed-rw"]
+    n = 0
+    for k in range(nbanks):
+        has_lock, has_latch = flags[(k + seed) % 4]
+        bankobj = "F%dB%02d" % (seed, k)
+        high = k % 4 == 1 or k % 4 == 2 and k % 8 == 2          # banks used up to their end (0xFE)
+        ceiling = 0xFE if high else 0x48 + 8 * (k % 5)
+        free = set(range(3, ceiling + 1))
+        cursor = 3
+        want_fe = high
+        for j in range(per_bank):
+            n += 1
+            # ---- parent
+            r = rnd.random()
+            users = [d for d in decls if rows["%s.%s" % (d["bankobj"], d["name"])]["kind"] in ("uint", "fixed", "string", "scaled")
+                     or rnd.random() < 0.25]
+            if todo_abstract and (r < 0.4 or not decls):
+                parent = ["abstract", todo_abstract.pop()]
+            elif todo_stock and r < 0.7:
+                parent = ["stock", todo_stock.pop()]
+            elif r < 0.45:
+                parent = ["abstract", rnd.choice(_ABSTRACT_WEIGHTED)]
+            elif r < 0.7:
+                parent = ["stock", rnd.choice(STOCK_PARENTS)]
+            elif users:
+                d = rnd.choice(users)
+                parent = ["user", "%s.%s" % (d["bankobj"], d["name"])]
+            else:
+                parent = ["abstract", rnd.choice(_ABSTRACT_WEIGHTED)]
+            prow = _abstract_row(parent[1]) if parent[0] == "abstract" else dict(BY_KEY[parent[1]]) if parent[0] == "stock" \
+                else rows[parent[1]]
+            kind = prow["kind"]
+            derived = parent[0] != "abstract"
+            # ---- width
+            pw = prow.get("width")
+            if kind == "uint":
+                w = rnd.choice([1, 1, 2, 2, 2, 3, 3, 4, 4, 6, 8])
+            elif kind == "fixed":
+                w = rnd.choice([1, 2, 2, 3, 4])
+            elif kind == "temp":
+                w = rnd.choice([1, 1, 1, 2])
+            elif kind == "string":
+                w = rnd.choice([1, 2, 3, 4, 5, 8, 8, 12])
+            elif kind == "bool":
+                w = 1
+            elif kind.startswith("version"):
+                w = rnd.choice([1, 2])
+            else:
+                w = rnd.choice([2, 3, 3, 4, 5])
+            if derived and pw and rnd.random() < 0.35 and pw <= 8:
+                w = pw                                           # same width as the parent
+            w = min(w, len(free))
+            # ---- locations
+            shape = rnd.choice(["up", "up", "down", "scattered", "scattered", "gaps"]) if w > 1 else "up"
+            if shape in ("up", "down"):
+                start = next((a for a in range(cursor, ceiling + 2 - w) if all(a + i in free for i in range(w))), None)
+                if start is None:
+                    start = next((a for a in range(3, ceiling + 2 - w) if all(a + i in free for i in range(w))), None)
+                if start is None:
+                    shape = "scattered"
+                else:
+                    locs = [start + i for i in range(w)]
+                    cursor = start + w + rnd.choice([0, 0, 1, 2])
+            if shape in ("up", "down"):
+                pass
+            elif shape == "gaps":
+                pool = sorted(a for a in free if a >= min(cursor, max(3, ceiling - 3 * w)))
+                if len(pool) < w:
+                    pool = sorted(free)
+                locs = sorted(rnd.sample(pool[:3 * w], w))
+            else:
+                locs = rnd.sample(sorted(free), w)
+                if locs == sorted(locs) and w > 1:
+                    locs[0], locs[-1] = locs[-1], locs[0]
+            if want_fe and 0xFE in free and (j >= 2 or w == 1) and 0xFE not in locs:
+                # one value of this bank ends / begins / passes at the last legal location
+                want_fe = False
+                pos = rnd.choice([w - 1, w - 1, 0, w // 2])
+                if shape in ("up", "down") and w > 1:
+                    locs = [0xFE - (w - 1) + i for i in range(w)] if all(0xFE - i in free for i in range(w)) else locs
+                    if 0xFE not in locs:
+                        locs[pos] = 0xFE
+                else:
+                    locs[pos] = 0xFE
+                    if shape == "gaps":
+                        locs.sort()
+            if shape == "down":
+                locs = locs[::-1]
+            free.difference_update(locs)
+            # ---- access types
+            t = todo_types.pop() if todo_types and rnd.random() < 0.5 else rnd.choice(
+                list(MEMORY_TYPES) + ["NVM_RW", "RAM_RW", "NVM_RW_L", "NVM_RW_L", None, "mixed-ro", "mixed-none", "mixed-rw"])
+            rw = [x for x in WRITABLE_TYPES if x != "NVM_RW_L" or has_lock]
+            if t == "NVM_RW_L" and not has_lock:
+                t = "NVM_RW"
+            if t in ("mixed-ro", "mixed-none", "mixed-rw") and w == 1:
+                t = {"mixed-ro": "ROM", "mixed-none": None, "mixed-rw": "NVM_RW_P"}[t]
+            if t == "mixed-ro":         # writeable and read-only locations in one value
+                types = [rnd.choice(rw) for _ in range(w)]
+                for i in rnd.sample(range(w), rnd.randint(1, w - 1)):
+                    types[i] = rnd.choice(_RO_TYPES)
+            elif t == "mixed-none":     # some locations without a type
+                types = [rnd.choice(rw + list(_RO_TYPES)) for _ in range(w)]
+                for i in rnd.sample(range(w), rnd.randint(1, w - 1)):
+                    types[i] = None
+            elif t == "mixed-rw":       # all writeable, of different types
+                types = [rw[(i + n) % len(rw)] for i in range(w)]
+            else:
+                types = [t] * w
+            defaults = [rnd.choice([None, None, 0x00, 0xFF, rnd.randrange(256)]) for _ in range(w)]
+            resets = [rnd.choice([None, None, None, 0xFF, rnd.randrange(256)]) for _ in range(w)]
+            uniform = len(set(types)) == 1 and len(set(defaults)) == 1 and len(set(resets)) == 1
+            form = "single" if w == 1 and rnd.random() < 0.5 else \
+                "range" if uniform and locs == list(range(locs[0], locs[0] + w)) and rnd.random() < 0.6 else \
+                rnd.choice(["tuple", "tuple", "list"])
+            # ---- what the class body sets
+            attrs = {}
+            nb = w - 1 if kind == "scaled" else w
+            numeric = kind in ("uint", "fixed")
+            p_set = 0.5 if derived else 1.0            # a derived value overrides some of the attributes
+            if numeric and rnd.random() < p_set * 0.45:
+                attrs["signed"] = rnd.random() < 0.8 if not prow["signed"] else rnd.random() < 0.5
+            signed = attrs.get("signed", prow["signed"])
+            if kind not in ("string", "version1", "version2", "version"):
+                for name in ("mask_supported", "tmask_supported"):
+                    if rnd.random() < p_set * 0.6:
+                        attrs[name] = rnd.random() < 0.7
+            if kind == "fixed" and (not derived or rnd.random() < 0.4):
+                attrs["exp10"] = rnd.choice([-3, -2, -1, -1, 1, 2, 3, 0])
+            bits = 8 * nb
+            top = (1 << (bits - 1)) - 1 if signed else (1 << bits) - 1
+            if numeric and rnd.random() < p_set * 0.7:
+                lo, hi = rnd.choice(declared_limit_pairs(nb, signed))
+                if rnd.random() < 0.3:
+                    lo, hi = rnd.choice([(None, top - 2), (None, top - 3), (1, top - 2), (0, 100), (-100 if signed else 1, 100)])
+                    lo, hi = (lo, hi if hi <= top else top)
+                if lo is not None or not derived or rnd.random() < 0.5:
+                    attrs["min_value"] = lo
+                if hi is not None or not derived or rnd.random() < 0.5:
+                    attrs["max_value"] = hi
+            elif kind in ("temp", "scaled") and rnd.random() < p_set * 0.6:
+                attrs["max_value"] = rnd.choice([top - 2, top - 2, None])
+            if not derived:
+                # an abstract base has none of these set: leave out what equals the base's default half of the time
+                for name, dflt in (("signed", False), ("mask_supported", False), ("tmask_supported", False),
+                                   ("min_value", None), ("max_value", None), ("exp10", 0)):
+                    if name in attrs and attrs[name] == dflt and rnd.random() < 0.5:
+                        del attrs[name]
+            decl = dict(name="V%d_%03d" % (seed, n), bankobj=bankobj, bank=FAMILY_BANK0 + k, parent=parent, locs=locs,
+                        types=types, defaults=defaults, resets=resets, form=form, attrs=attrs,
+                        order=rnd.choice(["parent-first", "child-first"]))
+            row = family_row(decl, prow)
+            decls.append(decl)
+            rows[row["key"]] = row
+        used = set(range(3, ceiling + 1)) - free
+        banks[bankobj] = dict(bank=FAMILY_BANK0 + k, has_lock=has_lock, has_latch=has_latch, last=max(used), module="(program)")
+    return dict(seed=seed, attempt=attempt, banks=banks, decls=decls, rows=rows)
+
+
+def family_features(fam, decl):
+    """Labels of the declaration features one declaration shows (for histograms and for FAMILY_FEATURES)."""
+    row = fam["rows"]["%s.%s" % (decl["bankobj"], decl["name"])]
+    b = fam["banks"][decl["bankobj"]]
+    locs, types, w = decl["locs"], decl["types"], len(decl["locs"])
+    f = ["base:" + (decl["parent"][1] if decl["parent"][0] == "abstract" else decl["parent"][0]),
+         "kind:" + row["kind"] + ("-signed" if row["signed"] else ""), "width:%d" % w,
+         "bank:%s%s" % ("lock" if b["has_lock"] else "no-lock", "+latch" if b["has_latch"] else ""), "form:" + decl["form"]]
+    f.append("order:" + ("single" if w == 1 else "ascending" if locs == list(range(locs[0], locs[0] + w)) else
+                         "descending" if locs == list(range(locs[0], locs[0] - w, -1)) else
+                         "ascending-with-gaps" if locs == sorted(locs) else "scattered"))
+    ts = set(types)
+    wr = all(t in WRITABLE_TYPES for t in types)
+    if len(ts) == 1:
+        f.append("type:%s" % types[0])
+    else:
+        f.append("type:mixed")
+        if ts & set(WRITABLE_TYPES) and ts - set(WRITABLE_TYPES):
+            f.append("type:mixed-writeable+read-only")
+        if None in ts:
+            f.append("type:mixed-with-untyped")
+        if wr:
+            f.append("type:mixed-all-writeable")
+    if 0xFE in locs:
+        f.append("location-0xfe")
+        if locs[-1] == 0xFE and w > 1:
+            f.append("ends-at-0xfe-%s" % ("writeable" if wr else "read-only"))
+    if row["min"] is not None or row["max"] is not None:
+        f.append("limits")
+    if row["mask"] or row["tmask"]:
+        f.append("flags:%s%s" % ("MASK" if row["mask"] else "", "TMASK" if row["tmask"] else ""))
+    if any(d is not None for d in decl["defaults"] + decl["resets"]):
+        f.append("default/reset-given")
+    if decl["parent"][0] != "abstract":
+        p = dict(BY_KEY[decl["parent"][1]]) if decl["parent"][0] == "stock" else fam["rows"][decl["parent"][1]]
+        who = "derived-from-%s" % ("shipped" if decl["parent"][0] == "stock" else "own")
+        f.append(who + ":" + decl["order"])
+        flagged = row["mask"] or row["tmask"]
+        if p["width"] != w:
+            f.append(who + ":other-width" + ("+flags" if flagged else ""))
+        if p["signed"] != row["signed"]:
+            f.append(who + ":other-signedness" + ("+flags" if flagged else ""))
+        if (p["min"], p["max"]) != (row["min"], row["max"]):
+            f.append(who + ":other-limits")
+        if (p["mask"], p["tmask"]) != (row["mask"], row["tmask"]):
+            f.append(who + ":other-flag-support")
+    return f
+
+
+FAMILY_FEATURES = tuple(
+    ["base:" + b for b in sorted(ABSTRACT_BASES)] + ["type:%s" % t for t in MEMORY_TYPES + (None,)] +
+    ["type:mixed-writeable+read-only", "type:mixed-with-untyped", "type:mixed-all-writeable", "kind:uint-signed",
+     "kind:fixed-signed", "kind:fixed", "kind:uint", "order:ascending", "order:descending", "order:scattered",
+     "order:ascending-with-gaps", "ends-at-0xfe-writeable", "location-0xfe", "limits", "default/reset-given",
+     "form:range", "form:tuple", "form:list", "form:single"] +
+    ["derived-from-%s:%s" % (w, x) for w in ("shipped", "own") for x in (
+        "parent-first", "child-first", "other-width+flags", "other-signedness+flags", "other-limits", "other-flag-support")])
+
+
+def family_missing(fam):
+    """Features of FAMILY_FEATURES that fewer than two declarations of the family show."""
+    n = {}
+    for d in fam["decls"]:
+        for x in family_features(fam, d):
+            n[x] = n.get(x, 0) + 1
+    return [x for x in FAMILY_FEATURES if n.get(x, 0) < 2]
+
+
+def _family_selfcheck(fam):
+    occ = set()
+    for d in fam["decls"]:
+        r = fam["rows"]["%s.%s" % (d["bankobj"], d["name"])]
+        b = fam["banks"][d["bankobj"]]
+        assert len(d["locs"]) == len(d["types"]) == len(set(d["locs"])) == r["width"] >= 1, d
+        assert all(3 <= a <= 0xFE for a in d["locs"]), d
+        assert all(t is None or t in MEMORY_TYPES for t in d["types"]), d
+        assert b["has_lock"] or "NVM_RW_L" not in d["types"], d
+        assert r["kind"] != "scaled" or r["width"] >= 2, d
+        assert not (r["signed"] and r["kind"] not in ("uint", "fixed")), d
+        for a in d["locs"]:
+            assert (d["bankobj"], a) not in occ, d
+            occ.add((d["bankobj"], a))
+        assert max(d["locs"]) <= b["last"], d
+
+
+def family_of_key(key):
+    """Seed of the family that a key / bank object name 'F<seed>B<k>[.<name>]' belongs to, or None."""
+    import re
+    m = re.match(r"F(\d+)B\d\d(\.|$)", key or "")
+    return int(m.group(1)) if m else None
+
+
+def declare_bank(bspec, location):
+    """`location`: the library's module dali.memory.location, handed in by the caller (this module never imports the
+    library; the two functions below only spell a declaration the way dali/memory/*.py do)."""
+    kw = {}
+    if bspec["has_lock"]:
+        kw["has_lock"] = True
+    if bspec["has_latch"]:
+        kw["has_latch"] = True
+    return location.MemoryBank(bspec["bank"], bspec["last"], **kw)
+
+
+def declare_value(decl, bank, parent_cls, location):
+    """The value class a program gets for `decl`: class <name>(<parent>): bank = ...; locations = ...; <attrs>"""
+    MT = location.MemoryType
+    kws = []
+    for t, d, r in zip(decl["types"], decl["defaults"], decl["resets"]):
+        kw = {}
+        if t is not None:
+            kw["type_"] = getattr(MT, t)
+        if d is not None:
+            kw["default"] = d
+        if r is not None:
+            kw["reset"] = r
+        kws.append(kw)
+    locs = decl["locs"]
+    if decl["form"] == "range":
+        locations = location.MemoryRange(start=locs[0], end=locs[-1], **kws[0])
+    else:
+        mls = [location.MemoryLocation(a, **kw) if i % 2 else location.MemoryLocation(address=a, **kw)
+               for i, (a, kw) in enumerate(zip(locs, kws))]
+        locations = mls[0] if decl["form"] == "single" else list(mls) if decl["form"] == "list" else tuple(mls)
+    body = {"bank": bank, "locations": locations, "__module__": "program", "__doc__": "declared by a program"}
+    for k, v in decl["attrs"].items():
+        if k == "exp10":
+            if v >= 0:
+                body["scaling_factor"] = 10 ** v
+            else:
+                from decimal import Decimal
+                body["scaling_factor"] = Decimal(1).scaleb(v)
+        else:
+            body[k] = v
+    return type(decl["name"], (parent_cls,), body)
